@@ -243,14 +243,15 @@ def runaway_violation(h, op, exc):
                 detail="%s: %r did not complete within its evaluation budget (%s); cause: %s" % (h.kind, op, exc, cause))
 
 
-def op_exchange(h, position, L):
+def op_exchange(h, position, L, copy=True):
     """Install a foreign point through the real worker loop (`tempering_process`) fed by
     a scripted connection: update_position followed by send_position."""
     from inference.mcmc.parallel import tempering_process
 
     class Conn:
         def __init__(self):
-            self.msgs = [{"task": "update_position", "position": np.array(position, dtype=float), "probability": float(L)},
+            self.msgs = [{"task": "update_position", "position": np.array(position, dtype=float) if copy else position,
+                          "probability": float(L)},
                          {"task": "send_position"}]
             self.reply = None
             self.polls = 0
